@@ -689,10 +689,23 @@ func (fr *Frame) evalPhis(st *State, b, pred *ssa.BasicBlock) {
 	}
 	for ph, v := range vals {
 		fr.regs[ph] = v
-		if ph.Comment != "" {
-			fr.env[ph.Comment] = v
-			delete(fr.envAddr, ph.Comment)
-		}
+		fr.bindPhi(ph, v, fr.loops[b])
+	}
+}
+
+// bindPhi makes a named phi (a source variable, or the hidden "rangeindex" of a range loop) visible to
+// contract clauses: under its name, and for loop headers also as <name><loop ordinal> (nested range
+// loops all call their counter "rangeindex")
+func (fr *Frame) bindPhi(ph *ssa.Phi, v Value, li *loopInfo) {
+	if ph.Comment == "" {
+		return
+	}
+	fr.env[ph.Comment] = v
+	delete(fr.envAddr, ph.Comment)
+	if li != nil {
+		k := fmt.Sprintf("%s%d", ph.Comment, li.ord)
+		fr.env[k] = v
+		delete(fr.envAddr, k)
 	}
 }
 
@@ -1008,6 +1021,9 @@ func (fr *Frame) step(st *State, in ssa.Instruction) {
 		elem := x.Type().(*types.Pointer).Elem()
 		h := st.newCell(elem, st.zeroValue(elem))
 		fr.regs[x] = Ptr{H: h, Elem: elem}
+		if typeKey(elem) == "bytes.Buffer" {
+			fr.gxSet(st, h, Str("")) // the zero Buffer is empty
+		}
 		if x.Comment != "" {
 			fr.env[x.Comment] = fr.regs[x]
 			fr.envAddr[x.Comment] = true
